@@ -115,8 +115,14 @@ func mkFrame(rng *rand.Rand, class string, fcSel int) frame {
 			q.Value = []uint16{1, 0x00FF, 0xFF01, 0xFFFF}[rng.Intn(4)]
 		case 15:
 			q.Qty = []uint16{0, 1969, 2000, 0xFFFF}[rng.Intn(4)]
+			if (q.Qty == 1969 || q.Qty == 2000) && rng.Intn(2) == 0 {
+				q.Data = libx.RandBytes(rng, (int(q.Qty)+7)/8) // body consistent with the (too large) coil count
+			}
 		case 16:
 			q.Qty = []uint16{0, 124, 125, 0xFFFF}[rng.Intn(4)]
+			if (q.Qty == 124 || q.Qty == 125) && rng.Intn(2) == 0 {
+				q.Data = libx.RandBytes(rng, 2*int(q.Qty)) // the body really carries that many registers: a frame longer than 260 bytes
+			}
 		case 23:
 			if rng.Intn(2) == 0 {
 				q.Qty = []uint16{0, 126, 0xFFFF}[rng.Intn(3)]
